@@ -132,6 +132,14 @@ Theorem incon_second_write_identical : forall nv check reset i, wf_fits nv check
 Proof. exact second_write_identical_stable. Qed.
 Print Assumptions incon_second_write_identical.
 
+(** writing has no effect on the object: the model's [write] returns lines only (the object after a
+    write IS the object; the implementation's object is compared with it after two writes in the
+    correspondence), so no write depends on the writes before it, in either order of [reset] *)
+Theorem incon_write_history_irrelevant : forall flags r i lss, write_all flags i = Ok lss ->
+  bind (write_all flags i) (fun _ => write r i) = write r i.
+Proof. exact write_history_irrelevant. Qed.
+Print Assumptions incon_write_history_irrelevant.
+
 (** the hypotheses are met (TOUGHREACT with permeabilities, 5 variables on 2 lines, a negative
     3-digit-exponent value, nseq/nadd, absent porosity, a digit-blank-digit name, timing kept;
     TOUGH2 without blocks; TOUGH2 with timing reset or kept, num_variables not given) *)
